@@ -52,16 +52,54 @@ Proof. intros; cbn; auto. Qed.
 
 (** * Expressions *)
 
+(** what may follow a printed expression, refined: the identifier [i] may follow unless the
+    printed expression ends in a real number literal ([b]) *)
+Definition okG (b : bool) (rest : list tok) : Prop :=
+  match rest with
+  | TLBracket :: _ => False
+  | TId (IdRes RI) :: _ => b = false
+  | _ => True
+  end.
+
+Definition ends_num_atom (e : expr) : bool :=
+  match e with EInfix _ _ _ | ENeg _ => false | _ => ends_num e end.
+
+Definition ends_num_inner (e : expr) : bool :=
+  match e with EInfix _ _ _ => false | _ => ends_num e end.
+
+Lemma okG_of_ok_after : forall b rest, ok_after rest -> okG b rest.
+Proof.
+  intros b [|t rest] H; cbn; auto. destruct t; auto. destruct x; auto. destruct r; auto.
+  cbn in H. contradiction.
+Qed.
+
+Lemma okG_true : forall rest, okG true rest -> ok_after rest.
+Proof.
+  intros [|t rest] H; cbn; auto. destruct t; auto. destruct x; auto. destruct r; auto.
+  cbn in H. discriminate.
+Qed.
+
+Lemma okG_brackets : forall b rest, okG b rest -> brackets rest = None.
+Proof.
+  intros b [|t rest] H; cbn; auto. destruct t; auto. cbn in H; contradiction.
+Qed.
+
+Lemma okG_rparen : forall b rest, okG b (TRParen :: rest).
+Proof. intros; exact I. Qed.
+
+Lemma okG_op : forall b o rest, okG b (TOp o :: rest).
+Proof. intros; exact I. Qed.
+
 Definition RT_top (e : expr) : Prop :=
-  forall f rest, stop rest -> length (print_e e ++ rest) < f ->
+  forall f rest, okG (ends_num e) rest -> no_op rest -> length (print_e e ++ rest) < f ->
     parse_e f 0 (print_e e ++ rest) = Ok e rest.
 
 Definition RT_prim (e : expr) : Prop :=
-  forall f rest, ok_after rest -> length (atomp e ++ rest) <= f ->
+  forall f rest, okG (ends_num_atom e) rest -> length (atomp e ++ rest) <= f ->
     primary (parse_e f 0) (atomp e ++ rest) = Ok e rest.
 
 Definition RT_opd (e : expr) : Prop :=
-  forall f p rest, ok_after rest -> length (inner e ++ rest) <= f ->
+  forall f p rest, okG (ends_num_inner e) rest -> length (inner e ++ rest) <= f ->
     parse_e (S f) p (inner e ++ rest) = loop_e f p e rest.
 
 Lemma parse_e_S : forall f p ts,
@@ -80,27 +118,28 @@ Lemma prim_paren : forall e, RT_top e ->
 Proof.
   intros e HB f rest Hl. change ([TRParen] ++ rest) with (TRParen :: rest) in *.
   unfold primary, immediate.
-  rewrite (HB f (TRParen :: rest) (stop_rparen rest)).
+  rewrite (HB f (TRParen :: rest) (okG_rparen _ rest) I).
   - reflexivity.
   - cbn [length app] in *. rewrite app_length in *. cbn [length] in *. lia.
 Qed.
 
 (** an operand that does not start with a minus sign: the operand statement from the primary one *)
 Lemma opd_of_prim : forall e,
-  inner e = atomp e ->
+  inner e = atomp e -> ends_num_inner e = ends_num_atom e ->
   (forall rest, strip_minus (atomp e ++ rest) = (false, atomp e ++ rest)) ->
   RT_prim e -> RT_opd e.
 Proof.
-  intros e Hin Hsm HP f p rest Hok Hl. rewrite Hin in *.
+  intros e Hin Hen Hsm HP f p rest Hok Hl. rewrite Hin in *. rewrite Hen in Hok.
   rewrite parse_e_S. rewrite Hsm. rewrite (HP f rest Hok Hl). reflexivity.
 Qed.
 
 Lemma inner_len : forall e, 1 <= length (inner e).
 Proof. destruct e; unfold inner; cbn [print_e length]; try lia. destruct im; cbn; lia. Qed.
 
-Lemma top_of_opd : forall e, print_e e = inner e -> RT_opd e -> RT_top e.
+Lemma top_of_opd : forall e, print_e e = inner e -> ends_num e = ends_num_inner e ->
+  RT_opd e -> RT_top e.
 Proof.
-  intros e Hin HA f rest [Hok Hno] Hl. rewrite Hin in *.
+  intros e Hin Hen HA f rest Hok Hno Hl. rewrite Hin in *. rewrite Hen in Hok.
   destruct f as [|f]; [lia|]. rewrite (HA f 0 rest Hok) by lia.
   destruct f as [|f].
   - rewrite app_length in Hl. pose proof (inner_len e). lia.
@@ -123,8 +162,9 @@ Ltac from_prim :=
   match goal with
   | HP : RT_prim ?e |- _ =>
       let HA := fresh "HA" in
-      assert (HA : RT_opd e) by (apply opd_of_prim; [reflexivity | intros; reflexivity | exact HP]);
-      split; [apply top_of_opd; [reflexivity | exact HA] | split; [exact HP | exact HA]]
+      assert (HA : RT_opd e)
+        by (apply opd_of_prim; [reflexivity | reflexivity | intros; reflexivity | exact HP]);
+      split; [apply top_of_opd; [reflexivity | reflexivity | exact HA] | split; [exact HP | exact HA]]
   end.
 
 Theorem expr_rt : forall e, wf_expr e = true -> RT_top e /\ RT_prim e /\ RT_opd e.
@@ -138,7 +178,7 @@ Proof.
     assert (HP : RT_prim (EFn g a)).
     { intros f rest Hok Hl. cbn [atomp print_e app] in *. rewrite <- app_assoc in *. cbn [app] in *.
       unfold primary. cbn [immediate brackets ident_class].
-      rewrite (HBa f (TRParen :: rest) (stop_rparen rest)).
+      rewrite (HBa f (TRParen :: rest) (okG_rparen _ rest) I).
       - destruct g; try discriminate; reflexivity.
       - cbn [length] in Hl. rewrite app_length in *. cbn [length] in *. lia. }
     from_prim.
@@ -146,12 +186,13 @@ Proof.
     apply andb_true_iff in Hwf as [Hl Hr].
     destruct (IHl Hl) as (_ & _ & HAl). destruct (IHr Hr) as (_ & _ & HAr).
     assert (HB : RT_top (EInfix l o r)).
-    { intros f rest [Hok Hno] Hlen. rewrite print_infix in *. rewrite <- app_assoc in *.
+    { intros f rest Hok Hno Hlen. rewrite print_infix in *. rewrite <- app_assoc in *.
       cbn [app] in *.
+      change (ends_num (EInfix l o r)) with (ends_num_inner r) in Hok.
       pose proof (inner_len l) as L1. pose proof (inner_len r) as L2.
       rewrite app_length in Hlen. cbn [length] in Hlen. rewrite app_length in Hlen.
       destruct f as [|[|[|[|f]]]]; try lia.
-      rewrite (HAl (S (S (S f))) 0 (TOp o :: inner r ++ rest) (ok_after_op _ _))
+      rewrite (HAl (S (S (S f))) 0 (TOp o :: inner r ++ rest) (okG_op _ _ _))
         by (rewrite app_length; cbn [length]; rewrite app_length; lia).
       cbn [loop_e]. rewrite prec_pos.
       rewrite (HAr (S f) (prec o) rest Hok) by (rewrite app_length; lia).
@@ -161,7 +202,7 @@ Proof.
     { intros f rest Hok Hlen. cbn [atomp] in *. cbn [app] in *. rewrite <- app_assoc in *.
       apply prim_paren; assumption. }
     assert (HA : RT_opd (EInfix l o r))
-      by (apply opd_of_prim; [reflexivity | intros; reflexivity | exact HP]).
+      by (apply opd_of_prim; [reflexivity | reflexivity | intros; reflexivity | exact HP]).
     split; [exact HB | split; [exact HP | exact HA]].
   - (* ENum *)
     apply andb_true_iff in Hwf as [Hv Hn]. apply eqb_prop in Hn.
@@ -169,24 +210,26 @@ Proof.
     { intros f rest Hok Hl. unfold primary. destruct im.
       - cbn [atomp print_e app immediate opt_i].
         rewrite (val_flit_of_val v Hv), Hn. reflexivity.
-      - destruct v as [n|id|n]; cbn [atomp print_e app tok_of_real immediate];
+      - apply okG_true in Hok.
+        destruct v as [n|id|n]; cbn [atomp print_e app tok_of_real immediate];
           rewrite (opt_i_ok rest Hok); cbn [val_of_flit].
         + cbn [wf_num] in Hv. rewrite (val_of_int_wf n Hv). destruct n; reflexivity.
         + reflexivity.
         + reflexivity. }
     assert (HA : RT_opd (ENum im v)).
-    { apply opd_of_prim; [reflexivity | | exact HP].
+    { apply opd_of_prim; [reflexivity | reflexivity | | exact HP].
       intros rest. destruct im; [reflexivity|]. destruct v; reflexivity. }
-    split; [apply top_of_opd; [reflexivity | exact HA] | split; [exact HP | exact HA]].
+    split; [apply top_of_opd; [reflexivity | reflexivity | exact HA] | split; [exact HP | exact HA]].
   - (* EPi *)
     assert (HP : RT_prim EPi).
     { intros f rest Hok Hl. unfold primary. cbn [atomp print_e app immediate].
-      rewrite (brackets_ok rest Hok). reflexivity. }
+      rewrite (okG_brackets _ rest Hok). reflexivity. }
     from_prim.
   - (* ENeg *)
     destruct (IHa Hwf) as (_ & HPa & _).
     assert (HB : RT_top (ENeg a)).
-    { intros f rest [Hok Hno] Hlen. rewrite print_neg in *. cbn [app length] in *.
+    { intros f rest Hok Hno Hlen. rewrite print_neg in *. cbn [app length] in *.
+      change (ends_num (ENeg a)) with (ends_num_atom a) in Hok.
       pose proof (atomp_len a) as L1. rewrite app_length in Hlen.
       destruct f as [|[|f]]; try lia.
       rewrite parse_e_S. cbn [strip_minus]. rewrite (HPa (S f) rest Hok) by (rewrite app_length; lia).
@@ -196,6 +239,7 @@ Proof.
       apply prim_paren; assumption. }
     assert (HA : RT_opd (ENeg a)).
     { intros f p rest Hok Hlen. change (inner (ENeg a)) with (print_e (ENeg a)) in *.
+      change (ends_num_inner (ENeg a)) with (ends_num_atom a) in Hok.
       rewrite print_neg in *. cbn [app length] in *.
       rewrite parse_e_S. cbn [strip_minus]. rewrite (HPa f rest Hok) by lia.
       reflexivity. }
@@ -205,11 +249,18 @@ Proof.
     from_prim.
 Qed.
 
+(** the refined statement: [i] may follow an expression whose print does not end in a number *)
+Lemma p_expr_rt_gen : forall e rest, wf_expr e = true -> okG (ends_num e) rest -> no_op rest ->
+  p_expr (print_e e ++ rest) = Ok e rest.
+Proof.
+  intros e rest Hwf Hok Hno. unfold p_expr. destruct (expr_rt e Hwf) as (HB & _ & _).
+  apply HB; auto.
+Qed.
+
 Lemma p_expr_rt : forall e rest, wf_expr e = true -> stop rest ->
   p_expr (print_e e ++ rest) = Ok e rest.
 Proof.
-  intros e rest Hwf Hs. unfold p_expr. destruct (expr_rt e Hwf) as (HB & _ & _).
-  apply HB; auto.
+  intros e rest Hwf [Hok Hno]. apply p_expr_rt_gen; auto. apply okG_of_ok_after; exact Hok.
 Qed.
 
 (** * Token classes that end the repetitions of the instruction parsers *)
@@ -376,6 +427,157 @@ Proof.
   - destruct im; [exact I|]. destruct v; exact I.
 Qed.
 
+(** * Waveform invocations *)
+
+Lemma key_ltb_leb : forall a b, key_ltb a b = true -> key_leb a b = true.
+Proof.
+  intros [r|r|n] [r'|r'|m] H; cbn in *; try discriminate; auto.
+  apply N.ltb_lt in H. apply N.leb_le. lia.
+Qed.
+
+(** the printer's sort leaves a parameter map in canonical form alone *)
+Lemma sort_sorted : forall l, sorted_keys l = true -> sort_named l = l.
+Proof.
+  induction l as [|x t IH]; intros H; [reflexivity|].
+  change (sort_named (x :: t)) with (ins_named x (sort_named t)).
+  destruct t as [|y t'].
+  - reflexivity.
+  - cbn [sorted_keys] in H. apply andb_true_iff in H as [Hxy Ht].
+    rewrite (IH Ht). cbn [ins_named]. rewrite (key_ltb_leb _ _ Hxy). reflexivity.
+Qed.
+
+Definition named_tail (l : list (ident * expr)) : list tok :=
+  flat_map (fun x : ident * expr => TComma :: TId (fst x) :: TColon :: print_e (snd x)) l.
+
+Lemma sep_named_cons : forall x t,
+  sep_named (x :: t) = TId (fst x) :: TColon :: print_e (snd x) ++ named_tail t.
+Proof.
+  intros x t; revert x; induction t as [|y t IH]; intros x.
+  - cbn. now rewrite app_nil_r.
+  - change (sep_named (x :: y :: t))
+      with (TId (fst x) :: TColon :: print_e (snd x) ++ TComma :: sep_named (y :: t)).
+    rewrite IH. reflexivity.
+Qed.
+
+Lemma named_tail_len : forall l, length l <= length (named_tail l).
+Proof.
+  induction l as [|e l IH]; cbn [named_tail flat_map length]; [lia|].
+  fold (named_tail l). rewrite app_length. cbn [length]. lia.
+Qed.
+
+Lemma stop_named_tail : forall l rest, stop (named_tail l ++ TRParen :: rest).
+Proof. intros [|e l] rest; cbn; repeat split. Qed.
+
+Lemma p_named_args_tail_rt : forall l,
+  forallb (fun x : ident * expr => wf_expr (snd x)) l = true ->
+  forall f rest, length l < f ->
+    p_named_args_tail f (named_tail l ++ TRParen :: rest) = Ok l (TRParen :: rest).
+Proof.
+  induction l as [|[k e] l IH]; intros Hwf f rest Hf; cbn [length] in Hf; (destruct f as [|f]; [lia|]).
+  - reflexivity.
+  - cbn [forallb snd] in Hwf. apply andb_true_iff in Hwf as [He Hl].
+    cbn [named_tail flat_map fst snd]. fold (named_tail l).
+    cbn [app p_named_args_tail named_key].
+    rewrite <- app_assoc. rewrite (p_expr_rt e _ He (stop_named_tail l rest)).
+    rewrite (IH Hl f rest) by lia. reflexivity.
+Qed.
+
+Lemma p_named_args_rt : forall x t rest,
+  forallb (fun x : ident * expr => wf_expr (snd x)) (x :: t) = true ->
+  p_named_args (sep_named (x :: t) ++ TRParen :: rest) = Ok (x :: t) (TRParen :: rest).
+Proof.
+  intros [k e] t rest Hwf. cbn [forallb snd] in Hwf. apply andb_true_iff in Hwf as [He Ht].
+  rewrite sep_named_cons. cbn [fst snd app]. unfold p_named_args. cbn [named_key].
+  rewrite <- app_assoc. rewrite (p_expr_rt e _ He (stop_named_tail t rest)).
+  rewrite (p_named_args_tail_rt t Ht).
+  - reflexivity.
+  - rewrite app_length. pose proof (named_tail_len t). lia.
+Qed.
+
+(** what may follow a printed waveform invocation *)
+Definition wstop (rest : list tok) : Prop :=
+  match rest with TLParen :: _ | TOp _ :: _ => False | _ => True end.
+
+Lemma p_waveform_rt : forall w rest, wf_waveform w = true -> wstop rest ->
+  p_waveform (print_waveform w ++ rest) = Ok w rest.
+Proof.
+  intros [name ext ps] rest Hwf Hr. unfold wf_waveform in Hwf. cbn [wparams] in Hwf.
+  apply andb_true_iff in Hwf as [Hs Hv].
+  unfold print_waveform. cbn [wname wext wparams]. rewrite (sort_sorted ps Hs).
+  destruct ps as [|x t].
+  - rewrite app_nil_r.
+    destruct ext as [x|]; cbn [app]; unfold p_waveform; cbn [wf_ext];
+      (destruct rest as [|t0 rest']; [reflexivity|]; destruct t0; try contradiction; reflexivity).
+  - destruct ext as [y|]; cbn [app]; rewrite <- app_assoc; cbn [app];
+      unfold p_waveform; cbn [wf_ext]; rewrite (p_named_args_rt x t rest Hv); reflexivity.
+Qed.
+
+Lemma line_end_wstop : forall rest, line_end rest -> wstop rest.
+Proof. intros [|[] rest] H; cbn in H; try contradiction; exact I. Qed.
+
+(** * CALL arguments *)
+
+Lemma call_more_brackets : forall t rest, line_end rest ->
+  brackets (flat_map print_callarg t ++ rest) = None.
+Proof.
+  intros [|b t] rest H.
+  - cbn [flat_map app]. destruct rest as [|[] rest]; cbn in H; try contradiction; reflexivity.
+  - destruct b as [[x i]|x|[] v]; try reflexivity. destruct v; reflexivity.
+Qed.
+
+Lemma call_more_i : forall t rest, line_end rest ->
+  match t with b :: _ => arg_starts_with_i b = false | [] => True end ->
+  opt_i (flat_map print_callarg t ++ rest) = (false, flat_map print_callarg t ++ rest).
+Proof.
+  intros [|b t] rest H Hb.
+  - cbn [flat_map app]. destruct rest as [|[] rest]; cbn in H; try contradiction; reflexivity.
+  - destruct b as [[x i]|x|[] v]; cbn [arg_starts_with_i fst] in Hb.
+    + destruct x as [[]| |]; try discriminate; reflexivity.
+    + destruct x as [[]| |]; try discriminate; reflexivity.
+    + reflexivity.
+    + destruct v; reflexivity.
+Qed.
+
+Lemma p_call_args_rt : forall args rest, line_end rest ->
+  forallb wf_callarg args = true -> call_immediate_then_i args = false ->
+  forall f, length args <= f ->
+    p_call_args f (flat_map print_callarg args ++ rest) = (args, rest).
+Proof.
+  induction args as [|a t IH]; intros rest Hle Hwf Hci f Hf.
+  - cbn [flat_map app]. destruct f as [|f]; [reflexivity|].
+    destruct rest as [|[] rest]; cbn in Hle; try contradiction; reflexivity.
+  - cbn [length] in Hf. destruct f as [|f]; [lia|].
+    cbn [forallb] in Hwf. apply andb_true_iff in Hwf as [Ha Ht].
+    cbn [call_immediate_then_i] in Hci. apply orb_false_iff in Hci as [Hai Hti].
+    assert (Hf' : length t <= f) by lia.
+    cbn [flat_map]. rewrite <- app_assoc.
+    pose proof (call_more_brackets t rest Hle) as Hbr.
+    destruct a as [[x i]|x|im v].
+    + cbn [print_callarg print_memref fst snd app p_call_args p_call_arg brackets].
+      rewrite (IH rest Hle Ht Hti f Hf'). reflexivity.
+    + cbn [print_callarg app p_call_args p_call_arg]. rewrite Hbr.
+      rewrite (IH rest Hle Ht Hti f Hf'). reflexivity.
+    + cbn [wf_callarg] in Ha. apply andb_true_iff in Ha as [Hv Hn]. apply eqb_prop in Hn.
+      destruct im.
+      * cbn [print_callarg app p_call_args p_call_arg immediate opt_i].
+        rewrite (val_flit_of_val v Hv), Hn. rewrite (IH rest Hle Ht Hti f Hf'). reflexivity.
+      * assert (Hi : opt_i (flat_map print_callarg t ++ rest)
+                     = (false, flat_map print_callarg t ++ rest)).
+        { apply call_more_i; [exact Hle|]. destruct t as [|b t']; [exact I|exact Hai]. }
+        destruct v as [n|id|n]; cbn [print_callarg tok_of_real app p_call_args p_call_arg immediate];
+          rewrite Hi; cbn [val_of_flit].
+        -- cbn [wf_num] in Hv. rewrite (val_of_int_wf n Hv). cbn [norm_im] in *.
+           rewrite (IH rest Hle Ht Hti f Hf'). destruct n; reflexivity.
+        -- rewrite (IH rest Hle Ht Hti f Hf'). reflexivity.
+        -- rewrite (IH rest Hle Ht Hti f Hf'). reflexivity.
+Qed.
+
+Lemma call_toks_len : forall l, length l <= length (flat_map print_callarg l).
+Proof.
+  induction l as [|a l IH]; cbn [flat_map length]; [lia|]. rewrite app_length.
+  destruct a as [[x i]|x|[] v]; cbn [print_callarg print_memref length]; lia.
+Qed.
+
 (** * Instructions *)
 
 Lemma line_end_cases : forall rest, line_end rest -> rest = [] \/ exists r, rest = TNewLine :: r.
@@ -467,6 +669,21 @@ Proof.
   - (* IUnary *)
     destruct c; try discriminate Hwf; cbn [print_instr app p_instruction p_command];
       rewrite p_memref_rt; reflexivity.
+  - (* ICall *)
+    apply andb_true_iff in Hwf as [Ha Hci]. apply negb_true_iff in Hci.
+    cbn [print_instr app p_instruction p_command].
+    rewrite (p_call_args_rt args rest Hle Ha Hci).
+    + reflexivity.
+    + rewrite app_length. pose proof (call_toks_len args). lia.
+  - (* ICapture *)
+    apply andb_true_iff in Hwf as [Hf Hw].
+    assert (Hcap : p_capture blocking (print_frame f ++ print_waveform w ++ print_memref m ++ rest)
+                   = Ok (ICapture blocking f w m) rest).
+    { unfold p_capture. rewrite (p_frame_rt f _ Hf). cbn [bind].
+      rewrite (p_waveform_rt w _ Hw) by (destruct m; exact I). cbn [bind].
+      rewrite p_memref_rt. reflexivity. }
+    destruct blocking; cbn [print_instr print_blocking app p_instruction p_command];
+      rewrite <- !app_assoc; exact Hcap.
   - (* IConvert *)
     cbn [print_instr app p_instruction p_command].
     rewrite <- !app_assoc, p_memref_rt; cbn [bind]; rewrite p_memref_rt; reflexivity.
@@ -527,6 +744,27 @@ Proof.
     + rewrite p_pragma_args_rt by exact I. reflexivity.
     + cbn [app]. rewrite p_pragma_args_rt by (le_split Hle; exact I).
       le_split Hle; reflexivity.
+  - (* IPulse *)
+    apply andb_true_iff in Hwf as [Hf Hw].
+    assert (Hp : p_pulse blocking (print_frame f ++ print_waveform w ++ rest)
+                 = Ok (IPulse blocking f w) rest).
+    { unfold p_pulse. rewrite (p_frame_rt f _ Hf). cbn [bind].
+      rewrite (p_waveform_rt w _ Hw (line_end_wstop rest Hle)). reflexivity. }
+    destruct blocking; cbn [print_instr print_blocking app p_instruction p_command];
+      rewrite <- !app_assoc; exact Hp.
+  - (* IRawCapture *)
+    apply andb_true_iff in Hwf as [Hwf Hcls]. apply andb_true_iff in Hwf as [Hf Hd].
+    apply negb_true_iff in Hcls. unfold rawcapture_region_i in Hcls.
+    assert (Hr : p_raw_capture blocking (print_frame f ++ print_e d ++ print_memref m ++ rest)
+                 = Ok (IRawCapture blocking f d m) rest).
+    { unfold p_raw_capture. rewrite (p_frame_rt f _ Hf). cbn [bind].
+      rewrite (p_expr_rt_gen d _ Hd).
+      - cbn [bind]. rewrite p_memref_rt. reflexivity.
+      - destruct m as [x i]. cbn [print_memref fst snd app okG] in *.
+        destruct x as [[]| |]; try exact I. cbn [is_i andb] in Hcls. exact Hcls.
+      - destruct m; exact I. }
+    destruct blocking; cbn [print_instr print_blocking app p_instruction p_command];
+      rewrite <- !app_assoc; exact Hr.
   - (* IReset *)
     cbn [print_instr app p_instruction p_command].
     destruct q as [[k|x]|]; cbn [app print_qubit p_qubit]; try reflexivity.
@@ -542,15 +780,62 @@ Proof.
     rewrite <- !app_assoc, (p_frame_rt a _ Ha); cbn [bind]. rewrite (p_frame_rt b _ Hb). reflexivity.
 Qed.
 
+(** * CALL built through the API *)
+
+Lemma xarg_print : forall a, wf_xarg a = true -> call_immediate_sign a = false ->
+  print_xarg a = print_callarg (xarg_parsed a) /\ wf_callarg (xarg_parsed a) = true.
+Proof.
+  intros [m|x|[rn ra inn ia]] Hwf Hc; cbn [print_xarg xarg_parsed]; auto.
+  cbn [wf_xarg call_immediate_sign re_neg re_abs im_neg im_abs] in *.
+  apply andb_true_iff in Hwf as [Hr Hi].
+  unfold print_complex. cbn [re_neg re_abs im_neg im_abs].
+  destruct (is_zero ia) eqn:Zi; destruct (is_zero ra) eqn:Zr; destruct rn, inn; cbn in Hc;
+    try discriminate; cbn [andb app print_callarg wf_callarg];
+    try (assert (ia = VInt 0) as -> by (destruct ia as [[]| |]; try discriminate; reflexivity));
+    try (assert (ra = VInt 0) as -> by (destruct ra as [[]| |]; try discriminate; reflexivity));
+    try (split; reflexivity).
+  - split; [reflexivity|]. rewrite Hr. destruct ra as [[]| |]; try discriminate; reflexivity.
+  - split; [reflexivity|]. rewrite Hr. destruct ra as [[]| |]; try discriminate; reflexivity.
+  - split; [reflexivity|]. rewrite Hi. destruct ia as [[]| |]; try discriminate; reflexivity.
+  - split; [reflexivity|]. rewrite Hi. destruct ia as [[]| |]; try discriminate; reflexivity.
+Qed.
+
+Lemma xcall_print : forall args, forallb wf_xarg args = true -> existsb call_immediate_sign args = false ->
+  flat_map print_xarg args = flat_map print_callarg (map xarg_parsed args)
+  /\ forallb wf_callarg (map xarg_parsed args) = true.
+Proof.
+  induction args as [|a t IH]; intros Hwf Hc; [split; reflexivity|].
+  cbn [forallb existsb] in *. apply andb_true_iff in Hwf as [Ha Ht]. apply orb_false_iff in Hc as [Hca Hct].
+  destruct (xarg_print a Ha Hca) as [Hp Hw]. destruct (IH Ht Hct) as [Hp' Hw'].
+  cbn [flat_map map forallb]. rewrite Hp, Hp', Hw, Hw'. split; reflexivity.
+Qed.
+
+(** an API-built CALL outside the two finding classes prints to tokens that parse back to it *)
+Theorem xcall_rt : forall name args rest, wf_xcall args = true -> line_end rest ->
+  p_instruction Repaired (print_xcall name args ++ rest) = Ok (ICall name (map xarg_parsed args)) rest.
+Proof.
+  intros name args rest Hwf Hle. unfold wf_xcall in Hwf.
+  apply andb_true_iff in Hwf as [Hwf Hti]. apply andb_true_iff in Hwf as [Hw Hc].
+  apply negb_true_iff in Hc. destruct (xcall_print args Hw Hc) as [Hp Hw'].
+  unfold print_xcall. rewrite Hp.
+  change (TCmd CCall :: TId name :: flat_map print_callarg (map xarg_parsed args))
+    with (print_instr (ICall name (map xarg_parsed args))).
+  apply instr_rt; [|exact Hle]. cbn [wf_instr]. rewrite Hw', Hti. reflexivity.
+Qed.
+
 (** * Programs *)
 
 Definition starts_instr (ts : list tok) : Prop :=
-  match ts with TCmd _ :: _ | TId _ :: _ | TModifier _ :: _ => True | _ => False end.
+  match ts with
+  | TCmd _ :: _ | TId _ :: _ | TModifier _ :: _ | TNonBlocking :: _ => True
+  | _ => False
+  end.
 
 Lemma print_instr_head : forall i, wf_instr i = true -> forall rest, starts_instr (print_instr i ++ rest).
 Proof.
-  intros i Hwf rest. destruct i; cbn [wf_instr] in Hwf; try discriminate; cbn; auto.
-  destruct mods; cbn; auto.
+  intros i Hwf rest.
+  destruct i as [| | | | |b| | | | | |mods| | | | | | | | | | | | | |b|b| | |];
+    cbn [wf_instr] in Hwf; try discriminate; try (destruct b); try (destruct mods); cbn; auto.
 Qed.
 
 Lemma skip_starts : forall ts, starts_instr ts -> skip ts = ts.
